@@ -736,7 +736,11 @@ func caseIf(fn *ssa.Function, dv *dev, value string) (*ssa.If, map[*ssa.BasicBlo
 	var best *ssa.If
 	var bestRegion map[*ssa.BasicBlock]bool
 	bestExclusive := false
-	for _, b := range fn.Blocks {
+	var blocks []*ssa.BasicBlock
+	for _, h := range dv.hostsOf(fn) { // (the switch may live in a stage function the handler was split into)
+		blocks = append(blocks, h.Blocks...)
+	}
+	for _, b := range blocks {
 		if len(b.Instrs) == 0 {
 			continue
 		}
@@ -766,7 +770,7 @@ func caseIf(fn *ssa.Function, dv *dev, value string) (*ssa.If, map[*ssa.BasicBlo
 		}
 		head := b.Succs[0]
 		region := map[*ssa.BasicBlock]bool{}
-		for _, x := range fn.Blocks {
+		for _, x := range b.Parent().Blocks {
 			if head.Dominates(x) {
 				region[x] = true
 			}
